@@ -234,6 +234,23 @@ def r52(db, ctx):
                     ok_err = True
                     err_local = l
             if not ok_err:
+                # alternative design: the block is tested immediately through a byte mask and the function returns early
+                mm = [(c, truth) for c, truth in L.conds if isinstance(c, tuple) and c[0] == 'bin' and isinstance(c[2], tuple) and c[2] and c[2][0] == 'movemask']
+                if mm:
+                    c, truth = mm[0]
+                    vecm = c[2][1]
+                    lanes_ok = isinstance(vecm, Vec) and all(vecm.b[i] == ('out', Hk, unk, i) for i in range(W))
+                    stays_when_zero = (c[1] == 'Ne' and not truth) or (c[1] == 'Eq' and truth)
+                    if not lanes_ok:
+                        probs.append('the byte mask tested per block is not the `unknown` vector')
+                    elif not (stays_when_zero and norm(c[3]) == ('k', 0)):
+                        if c[1] in ('Gt', 'Lt', 'Ge', 'Le') and W == 32:
+                            probs.append(f'per-block error test is `movemask {c[1]} 0` on the signed 32-bit mask: lane 31 is the sign bit, so an unknown byte in the last lane of a block is not detected')
+                        else:
+                            probs.append(f'per-block error test `{c[1]}` does not mean "any lane unknown"')
+                    else:
+                        ok_err = True
+            if not ok_err and not probs:
                 probs.append('error flag is not `error |= unknown` from an all-zero start')
             # store: encoded -> dst at the same running offset as the load
             st = [a for a in E.acc if a.kind == 'store' and a.loops == (H,) and isinstance(a.value, Vec)]
@@ -271,20 +288,40 @@ def r53_54(db, ctx):
                 if '_mm256_testz_si256' in d or ('Iterator::any' in d):
                     tests.append(bi)
         good = len(tests) == 1 and oks and all(f.dominates(tests[0], o) for o in oks)
-        # rescan from the start
-        rescans = [(bi, t) for bi, t in f.calls() if (f.callee_short(t) or '').endswith('Symbol::from_ascii')]
-        rs_ok = False
-        for bi, t in rescans:
-            a = norm(R.operand(t['args'][0]))
-            if a[0] == 'elem' and X.canon(a[1]) in ('core::slice::iter(arg1)',):
-                rs_ok = True
-        # the `?`: an Err return reachable from the rescan
-        errs = [bi for bi, blk in enumerate(f.blocks) for st in blk['stmts'] if st['k'] == 'assign' and st['p']['l'] == 0 and st['rv']['k'] == 'agg' and st['rv'].get('variant') == 'Err']
-        prop = bool(errs) or any((f.callee_short(t) or '').endswith('from_residual') and t['dest']['l'] == 0 for _, t in f.calls())
-        if good and rs_ok and prop:
-            ctx.ok('R5.3', f, 'Ok(()) dominated by the error-flag test; flagged side rescans seq.iter() from the start with from_ascii(..)?', ['first offending byte reported'])
+        early = None
+        for bi in range(len(f.blocks)):
+            t = f.term(bi)
+            if t['k'] == 'switch' and 'movemask' in X.canon(norm(R.operand(t['discr']))):
+                early = bi
+        if not tests and early is not None:
+            # per-block test: Ok is only reachable through the test, the flagged side reports seq[i + trailing_zeros(mask)]
+            loops_e = [L_ for L_ in f.loops() if early in L_['body']]
+            good2 = bool(oks) and bool(loops_e) and all(f.dominates(early, l_) for L_ in loops_e[-1:] for l_ in L_['latches'])
+            errv = None
+            for blk in f.blocks:
+                for st in blk['stmts']:
+                    if st['k'] == 'assign' and st['rv']['k'] == 'agg' and st['rv'].get('adt', '').endswith('InvalidSymbol'):
+                        errv = norm(R.operand(st['rv']['ops'][0]))
+            first = errv is not None and 'trailing_zeros' in X.canon(errv) and 'arg1' in X.canon(errv)
+            if good2 and first:
+                ctx.ok('R5.3', f, 'per-block test dominates Ok; the flagged side reports seq[i + trailing_zeros(mask)] (first unknown lane)', ['early return'])
+            else:
+                ctx.fail('R5.3', f, 'error path', f'per-block error test on every iteration={good2}, reports the first unknown lane={first}')
         else:
-            ctx.fail('R5.3', f, 'error path', f'flag test dominates Ok={good}, rescan from start={rs_ok}, Err propagated={prop}')
+            # rescan from the start
+            rescans = [(bi, t) for bi, t in f.calls() if (f.callee_short(t) or '').endswith('Symbol::from_ascii')]
+            rs_ok = False
+            for bi, t in rescans:
+                a_ = norm(R.operand(t['args'][0]))
+                if a_[0] == 'elem' and X.canon(a_[1]) in ('core::slice::iter(arg1)',):
+                    rs_ok = True
+            # the `?`: an Err return reachable from the rescan
+            errs = [bi for bi, blk in enumerate(f.blocks) for st in blk['stmts'] if st['k'] == 'assign' and st['p']['l'] == 0 and st['rv']['k'] == 'agg' and st['rv'].get('variant') == 'Err']
+            prop = bool(errs) or any((f.callee_short(t) or '').endswith('from_residual') and t['dest']['l'] == 0 for _, t in f.calls())
+            if good and rs_ok and prop:
+                ctx.ok('R5.3', f, 'Ok(()) dominated by the error-flag test; flagged side rescans seq.iter() from the start with from_ascii(..)?', ['first offending byte reported'])
+            else:
+                ctx.fail('R5.3', f, 'error path', f'flag test dominates Ok={good}, rescan from start={rs_ok}, Err propagated={prop}')
         # R5.4
         tails = [(bi, t) for bi, t in f.calls() if (f.callee_short(t) or '').endswith('Encode::encode_into')]
         ok4 = False
